@@ -10,7 +10,25 @@ def comps(cs):
     return "+".join("%d=%d" % kv for kv in cs)
 
 
+def gen_refresh_case(rng):
+    """a scene produced earlier is refreshed: the entity is already in the scene with few components, and rules selecting
+    components that cannot be exported (no reflect(Component) / unregistered) come before the ones that can"""
+    bad = rng.sample([4, 5], rng.randint(1, 2))
+    good = rng.sample([0, 1, 2, 3], rng.randint(1, 3))
+    rules = [(k,) for k in bad] + [(k,) for k in good]
+    if rng.random() < 0.3:
+        rng.shuffle(rules)
+    prios = [None] * len(rules)
+    world = [(1, True, [(k, rng.randint(0, 50)) for k in bad + good])]
+    if rng.random() < 0.5:
+        world.append((2, True, [(k, rng.randint(0, 50)) for k in good]))
+    scene = [(1, [(k, rng.randint(100, 150)) for k in rng.sample(good, rng.randint(1, len(good)))])]
+    return rules, world, scene, prios
+
+
 def gen_case(rng):
+    if rng.random() < 0.15:
+        return gen_refresh_case(rng)
     rules, prios = [], []
     for _ in range(rng.randint(0, 5)):
         g = (rng.randint(0, 5),) if rng.random() < 0.5 else rng.choice(BUNDLES)
